@@ -8,7 +8,8 @@ J(prio, ord, steps) == [prio |-> prio, ord |-> ord, steps |-> steps]
 (* child: size (chunks of output), fate, interruptible, ignores SIGINT, releases its lane, missing binary *)
 P(size, fate, canint, ignint, release, missing) ==
   [size |-> size, fate |-> fate, canint |-> canint, ignint |-> ignint, release |-> release, mustrel |-> FALSE,
-   missing |-> missing, badctl |-> FALSE]
+   missing |-> missing, badctl |-> FALSE, untilcancel |-> FALSE]
+U(p) == [p EXCEPT !.untilcancel = TRUE]     \* the child's scripted end is only reachable once cancelAllJobs has returned
 Q(lanes, alg, bgmax, aux, client, jobs, procs) ==
   [lanes |-> lanes, alg |-> alg, bgmax |-> bgmax, serial |-> FALSE, auxcancel |-> aux, client |-> client, jobs |-> jobs, procs |-> procs,
    waitdone |-> FALSE]
@@ -41,6 +42,10 @@ ScF == Q(2, "name", 2, TRUE, <<"a", "b", "c", "d">>,
           d |-> J("N", 4, <<S("cancel", "")>>), e |-> J("H", 5, <<>>)],
          [p1 |-> P(2, "exit0", TRUE, FALSE, TRUE, FALSE), p2 |-> P(1, "sig15", FALSE, FALSE, TRUE, FALSE)])
 
+(* a child that detaches from its pipes and only ends by itself after the cancellation (seeded change C16_4) *)
+ScU == Q(1, "fifo", 0, TRUE, <<"a", "b">>,
+         [a |-> J("N", 1, <<S("spawn", "p1")>>), b |-> J("N", 2, <<S("spawn", "p2")>>)],
+         [p1 |-> U(P(1, "exit0", TRUE, FALSE, FALSE, FALSE)), p2 |-> U(P(0, "exit3", FALSE, FALSE, FALSE, FALSE))])
 (* small scenarios for the liveness configuration *)
 ScL == Q(2, "fifo", 0, FALSE, <<"a", "b">>,
          [a |-> J("N", 1, <<S("spawn", "p1")>>), b |-> J("H", 2, <<S("cancel", "")>>)],
@@ -52,11 +57,11 @@ ScM == Q(1, "fifo", 1, TRUE, <<"a">>,
 ScN == W(Q(2, "fifo", 0, FALSE, <<"a", "b">>,
          [a |-> J("N", 1, <<S("add", "c")>>), b |-> J("H", 2, <<>>), c |-> J("N", 3, <<S("spawn", "p1")>>)],
          [p1 |-> P(1, "exit0", TRUE, FALSE, FALSE, FALSE)]))
-LiveQuickScenarios == {ScB, ScL, ScM, ScN}
+LiveQuickScenarios == {ScB, ScL, ScM, ScN, ScU}
 LiveThoroughScenarios == {ScA, ScB, ScC, ScD, ScL, ScM}
-QuickScenarios == {ScA, ScB, ScC, ScD, ScN}
+QuickScenarios == {ScA, ScB, ScC, ScD, ScN, ScU}
 (* ScE is not in any registered set: > 5.1M distinct states at depth 35 when stopped after 25 minutes on a loaded machine *)
-ThoroughScenarios == {ScA, ScB, ScC, ScD, ScF, ScN, W(ScA)}
+ThoroughScenarios == {ScA, ScB, ScC, ScD, ScF, ScN, ScU, W(ScA)}
 VacNotifyScenarios == {ScN}
 ScP == Q(1, "fifo", 0, FALSE, <<"a">>, [a |-> J("N", 1, <<S("add", "b")>>), b |-> J("H", 2, <<>>)], NoProcs)
 VacDrainScenarios == {ScP}
